@@ -280,10 +280,14 @@ impl FromStr for PartialDSym {
             Err("size must be at least 1".into())
         } else if spec.dim < 1 {
             Err("dimension must be at least 1".into())
-        } else if spec.op_spec.len() != spec.dim as usize + 1 {
+        } else if spec.op_spec.len().checked_sub(1) != Some(spec.dim) {
             Err("incorrect dimension for op specifications".into())
         } else if spec.m_spec.len() != spec.dim as usize {
             Err("incorrect dimension for degree specifications".into())
+        } else if spec.op_spec.iter().any(|op_i| op_i.len() < spec.size / 2) {
+            // every number defines at most two images, so this also bounds
+            // the size by the length of the input before anything is allocated
+            Err("incomplete op spec".into())
         } else {
             let mut dset = PartialDSet::new(spec.size, spec.dim);
 
@@ -295,6 +299,11 @@ impl FromStr for PartialDSym {
                     if dset.op_unchecked(i, d) == 0 {
                         let &di = op_i.get(k)
                             .ok_or("incomplete op spec".to_string())?;
+                        if di < 1 || di > spec.size {
+                            return Err("op image out of range".into());
+                        } else if di != d && dset.op_unchecked(i, di) != 0 {
+                            return Err("inconsistent op spec".into());
+                        }
                         dset.set(i, d, di);
                         k += 1;
                     }
